@@ -57,8 +57,10 @@ pub fn un_inverse(input: &[Node], asm: &Assembly) -> InversionResult<Node> {
     }) {
         return cached;
     }
-    let res = un_inverse_impl(input, asm, false);
-    CACHE.with(|cache| cache.borrow_mut().insert(hash, res.clone()));
+    let (res, keep) = cacheable(|| un_inverse_impl(input, asm, false));
+    if keep {
+        CACHE.with(|cache| cache.borrow_mut().insert(hash, res.clone()));
+    }
     res
 }
 
@@ -113,8 +115,10 @@ fn anti_inverse(input: &[Node], asm: &Assembly, for_un: bool) -> InversionResult
     if let Some(cached) = CACHE.with(|cache| cache.borrow_mut().get(&hash).cloned()) {
         return cached;
     }
-    let res = anti_inverse_impl(input, asm, for_un);
-    CACHE.with(|cache| cache.borrow_mut().insert(hash, res.clone()));
+    let (res, keep) = cacheable(|| anti_inverse_impl(input, asm, for_un));
+    if keep {
+        CACHE.with(|cache| cache.borrow_mut().insert(hash, res.clone()));
+    }
     res
 }
 
@@ -592,6 +596,8 @@ inverse!("Match a constant exactly", (MatchConst, input, asm), {
         val.push(ImplPrim(MatchPattern, 0));
         return Ok((input, val));
     }
+    // The span of the function being inverted, which only holds for the assembly as it is now
+    note_last_span_used();
     val.push(ImplPrim(MatchPattern, asm.spans.len() - 1));
     Ok((input, val))
 });
